@@ -39,6 +39,7 @@ ASSUMPTIONS = [
 ]
 MIN_NONTRIVIAL = {'quick': 15000, 'thorough': 300000}
 REQUIRED_MONITORS = ['boundary:Tract', 'fixed-point', 'unparsed-pp_desc',
+                     'pp_desc-after-what-if',
                      'contract:scrub_aliquots', 'bare-quarter', 'context',
                      'bare-quarter:PLSSDesc', 'bare-quarter:reconfigured',
                      'boundary:PLSSDesc']
@@ -298,6 +299,20 @@ def check_bare(text, exp_plain, exp_clean, ctx, rep, pytrs):
                         f"pp_desc {shown!r}, its preprocess() gives {again!r}"
                         f", a parsed Tract has {t.pp_desc!r}",
                         dedup=f"unparsed|{cfg}")
+                # a what-if parse under the opposite setting leaves the
+                # committed preprocessed text as it is: it is still what
+                # preprocess() gives under the tract's own settings
+                ctx.hit('pp_desc-after-what-if')
+                kept = t.pp_desc
+                t.parse(commit=False, clean_qq=(cfg != 'clean_qq'))
+                if not (t.pp_desc == kept == t.preprocess()):
+                    ctx.violation(
+                        'bare-quarter', case,
+                        f"{text!r} config {cfg!r}: committed pp_desc {kept!r}"
+                        f"; after parse(commit=False, clean_qq="
+                        f"{cfg != 'clean_qq'}) it reads {t.pp_desc!r}, "
+                        f"preprocess() gives {t.preprocess()!r}",
+                        dedup=f"whatif-pp|{cfg}")
             elif cfg and ctx.evaluations % 2:
                 # parsed once under the config, then again with the keyword
                 t = pytrs.Tract(text, parse_qq=True, config=cfg)
